@@ -25,6 +25,7 @@ import (
 	"bytes"
 	"context"
 	"fmt"
+	"math/rand"
 	"os"
 	"os/exec"
 	"os/signal"
@@ -225,6 +226,7 @@ type c27Case struct {
 	dir     string
 	oldData []byte // nil if absent
 	newData []byte // the bytes expected at the target after success
+	follow  string // non-empty: input file of a follow-up write into the SAME directory (nothing is reset, no old content is written)
 }
 
 type c27Fault struct {
@@ -232,6 +234,8 @@ type c27Fault struct {
 	Syscall string `json:"syscall,omitempty"`
 	When    int    `json:"when,omitempty"`
 	Errno   string `json:"errno,omitempty"`
+	// Persistent: every occurrence from When on fails (strace when=k+), so a retry fails too
+	Persistent bool `json:"persistent,omitempty"`
 	// second fault (clean-up path), optional
 	Kind2    string `json:"kind2,omitempty"`
 	Syscall2 string `json:"syscall2,omitempty"`
@@ -254,6 +258,9 @@ func (f c27Fault) injectArgs() []string {
 	}
 	var out []string
 	if s := one(f.Kind, f.Syscall, f.When, f.Errno); s != "" {
+		if f.Persistent {
+			s += "+"
+		}
 		out = append(out, s)
 	}
 	if f.Kind2 != "" {
@@ -277,16 +284,21 @@ func (c *c27Case) target() string { return filepath.Join(c.dir, "d", "target.bin
 
 // runChild runs the crash-writer once (under strace unless noStrace).
 func (c *c27Case) runChild(tag string, inject []string, extraEnv []string, noStrace bool) c27Outcome {
-	// fresh target directory for every run
+	// fresh target directory for every run, except for follow-up writes
 	d := filepath.Join(c.dir, "d")
-	os.RemoveAll(d)
-	must(os.MkdirAll(d, 0o755))
+	newIn := filepath.Join(c.dir, "new.in")
+	if c.follow == "" {
+		os.RemoveAll(d)
+		must(os.MkdirAll(d, 0o755))
+	} else {
+		newIn = c.follow
+	}
 	logPath := filepath.Join(c.dir, "strace-"+tag+".log")
 	env := childEnv(roleEnv+"=crash-writer",
 		"VERIF_C27_TARGET="+c.target(),
-		"VERIF_C27_NEW="+filepath.Join(c.dir, "new.in"),
+		"VERIF_C27_NEW="+newIn,
 		"VERIF_C27_MODE="+c.Mode)
-	if c.oldData != nil {
+	if c.oldData != nil && c.follow == "" {
 		env = append(env, "VERIF_C27_OLD="+filepath.Join(c.dir, "old.in"))
 	} else {
 		env = append(env, "VERIF_C27_OLD=")
@@ -420,6 +432,55 @@ func (c *c27Case) judge(r *vk.Run, f c27Fault, o c27Outcome, hit string) {
 	r.Count("reported_"+map[string]string{"": "nothing", "nil": "nil", "error": "error"}[o.Reported], 1)
 }
 
+// secondWrite performs a clean follow-up write of different content into the same
+// directory and target after a crashed attempt, and judges it: whatever the crashed
+// attempt left behind, a successful write must leave exactly its own content.
+func (c *c27Case) secondWrite(r *vk.Run, rng *rand.Rand, after string, variant int) {
+	n1 := c.NewSize
+	var n2 int
+	kind := [...]string{"shorter", "longer", "empty"}[variant%3]
+	switch kind {
+	case "shorter":
+		if n1 > 1 {
+			n2 = 1 + rng.Intn(n1-1)
+		}
+	case "longer":
+		n2 = n1 + 1 + rng.Intn(n1+100)
+	}
+	payload := make([]byte, n2)
+	rng.Read(payload)
+	in2 := filepath.Join(c.dir, "new2.in")
+	must(os.WriteFile(in2, payload, 0o600))
+	expected := payload
+	if c.Mode == "proto" {
+		enc, err := proto.Marshal(wrapperspb.Bytes(payload))
+		must(err)
+		expected = enc
+	}
+	c2 := *c
+	c2.NewSize, c2.newData, c2.oldData = n2, expected, nil
+	if cur, err := os.ReadFile(c.target()); err == nil {
+		c2.oldData = append([]byte{}, cur...)
+		c2.OldSize = len(cur)
+	} else {
+		c2.OldSize = -1
+	}
+	c.follow = in2
+	o := c.runChild("second", nil, nil, true)
+	c.follow = ""
+	r.Eval(1)
+	f := c27Fault{Kind: "second-write-after-crash", Syscall: after}
+	hit := fmt.Sprintf("clean %s write (%d bytes) after an attempt of %d bytes crashed at %s", kind, len(expected), len(c.newData), after)
+	c2.judge(r, f, o, hit)
+	if o.Reported == "nil" {
+		r.Count("second_writes_after_crash_succeeded", 1)
+		r.Distinct(strings.Join([]string{c.Mode, "second-write", kind, after, fmt.Sprint(c.oldData == nil)}, "|"))
+	} else {
+		r.Count("second_writes_after_crash_not_successful", 1) // unexpected for a clean write; the oracle above still applies
+		fmt.Printf("case %d: clean second write did not report nil: %q\n", c.Index, o.Stdout)
+	}
+}
+
 func commonPrefix(a, b []byte) int {
 	n := 0
 	for n < len(a) && n < len(b) && a[n] == b[n] {
@@ -518,6 +579,9 @@ func c27Sizes(r *vk.Run, n int) [][2]int {
 		if i == 1 {
 			o, nw = 1000, 0 // replacing by an empty file
 		}
+		if i%4 >= 2 {
+			o = -1 // first save: nothing at the target yet (covers both modes: case index mod 3 picks the mode)
+		}
 		if o <= 0 && nw == 0 {
 			nw = 1 + rng.Intn(5000)
 		}
@@ -584,9 +648,10 @@ func c27() {
 			r.Note(fmt.Sprintf("baseline_bracket_case%d", i), names)
 		}
 
+		followUps := i // rotates shorter / longer / empty
 		run := func(f c27Fault) (c27Outcome, bool) {
 			fmt.Printf("case %d: fault %s\n", i, vk.JSON(f))
-			tag := fmt.Sprintf("%s-%s-%d-%s-%s-%d", f.Kind, f.Syscall, f.When, f.Kind2, f.Syscall2, f.When2)
+			tag := fmt.Sprintf("%s-%s-%d%v-%s-%s-%d", f.Kind, f.Syscall, f.When, f.Persistent, f.Kind2, f.Syscall2, f.When2)
 			var o c27Outcome
 			var hit string
 			ok := false
@@ -610,8 +675,13 @@ func c27() {
 			if c.oldData == nil {
 				oldKind = "noold"
 			}
-			r.Distinct(strings.Join([]string{c.Mode, oldKind, hit, f.Errno, f.Errno2, o.Reported}, "|"))
+			r.Distinct(strings.Join([]string{c.Mode, oldKind, hit, f.Errno, fmt.Sprint(f.Persistent), f.Errno2, o.Reported}, "|"))
 			r.Sample(map[string]any{"case": c, "fault": f, "hit": hit, "reported": o.Reported, "error": o.ErrText})
+			if f.Kind == "kill" && f.Kind2 == "" {
+				// multi-step history: the crashed attempt is followed by a clean write of other content
+				followUps++
+				c.secondWrite(r, rng, hit, followUps)
+			}
 			return o, true
 		}
 
@@ -628,6 +698,17 @@ func c27() {
 			first = append(first, c27Fault{Kind: "errno", Syscall: s.Name, When: s.Ordinal, Errno: e})
 			if s.Name == "write" {
 				first = append(first, c27Fault{Kind: "zero-write", Syscall: s.Name, When: s.Ordinal})
+			}
+			if strings.HasPrefix(s.Name, "rename") {
+				// errnos a rename "over an existing file" might be (mis)taken for, once and persistently
+				renameErrnos := []string{"EACCES", "EPERM", "EEXIST", "EROFS"}
+				if r.Quick() {
+					renameErrnos = renameErrnos[(i%2)*2 : (i%2)*2+2]
+				}
+				for _, e := range renameErrnos {
+					run(c27Fault{Kind: "errno", Syscall: s.Name, When: s.Ordinal, Errno: e})
+					run(c27Fault{Kind: "errno", Syscall: s.Name, When: s.Ordinal, Errno: e, Persistent: true})
+				}
 			}
 			for _, f := range first {
 				o, ok := run(f)
@@ -712,6 +793,11 @@ func c27() {
 				}
 				hit := fmt.Sprintf("%s after %d of %d bytes", f.Kind, limit, len(c.newData))
 				c.judge(r, f, o, hit)
+				if live && variant == "kill" {
+					// the crashed attempt left real data in its temporary file
+					followUps++
+					c.secondWrite(r, rng, "write#2 (after a short write)", 0) // shorter
+				}
 				if live {
 					r.Count("faults_hit", 1)
 					r.Count("hit:"+f.Kind, 1)
